@@ -603,6 +603,12 @@ def std_transfer(I, fr, t, c, pth):
         if rp is not None and (hi is None):
             fr.storev(dest, Ref(rp[0], list(rp[1]) + ([['off', lo]] if lo else [])))
             return True
+        if rp is not None and hi is not None:
+            # a bounded mutable view: in range when the underlying sequence is known to be long enough
+            s = seq_of(I, fr, args[0])
+            if isinstance(s, Agg) and lo <= hi <= len(s.items):
+                fr.storev(dest, Ref(rp[0], list(rp[1]) + [['off', lo, hi - lo]]))
+                return True
         return False
     return False
 
